@@ -122,6 +122,8 @@ RMul(x, y) == IF LargeR(x) \/ LargeR(y) \/ x.d * y.d > 1024 \/ x.n > 30000 \/ x.
 -----------------------------------------------------------------------------
 \* text <-> number literals (code points: '0' = 48, '-' = 45, '+' = 43, '.' = 46)
 IsDigit(c) == c >= 48 /\ c <= 57
+\* the Unicode property White_Space (what str::trim and char::is_whitespace go by)
+IsWhiteSpace(c) == (c >= 9 /\ c <= 13) \/ c \in {32, 133, 160, 5760, 8232, 8233, 8239, 8287, 12288} \/ (c >= 8192 /\ c <= 8202)
 RECURSIVE DigitsVal(_, _)
 DigitsVal(s, acc) == IF s = <<>> THEN acc ELSE DigitsVal(Tail(s), acc * 10 + (Head(s) - 48))
 AllDigits(s) == s # <<>> /\ \A i \in 1..Len(s) : IsDigit(s[i])
@@ -240,7 +242,7 @@ ParseTs(s) ==      \* the strict "%Y-%m-%d %H:%M:%S" form with 4-digit year and 
   THEN LET y == Num(s, 1, 4) m == Num(s, 6, 2) d == Num(s, 9, 2) h == Num(s, 12, 2) mi == Num(s, 15, 2) sc == Num(s, 18, 2)
        IN IF ValidDate(y, m, d) /\ ValidTime(h, mi, sc) THEN TsV(<<y, m, d, h, mi, sc, 0>>)
           ELSE IF sc = 60 THEN XUnk ELSE XNone
-  ELSE IF \E i \in 1..Len(s) : IsDigit(s[i]) THEN (IF \A i \in 1..Len(s) : IsDigit(s[i]) \/ s[i] \in {45, 32, 58} THEN XUnk ELSE XNone)
+  ELSE IF \E i \in 1..Len(s) : IsDigit(s[i]) THEN (IF \A i \in 1..Len(s) : IsDigit(s[i]) \/ s[i] \in {45, 43, 58} \/ IsWhiteSpace(s[i]) THEN XUnk ELSE XNone)
   ELSE XNone
 
 RECURSIVE SplitOn(_, _, _)
@@ -423,6 +425,12 @@ PatMatch(s, p0) ==
   IN IF p0 \in {<<40>>, <<41>>, <<91, 97>>, <<42>>, <<97, 123, 50>>, <<92>>} THEN XNone         \* ( ) [a * a{2 \ : not regular expressions
      ELSE IF ~PlainPat(p) THEN XUnk
      ELSE BoolV(IF front /\ back THEN s = p ELSE IF front THEN at(0) ELSE IF back THEN (Len(s) >= n /\ at(Len(s) - n)) ELSE \E i \in 0..Len(s) : at(i))
+
+\* a recorded evaluation may carry the regex crate's verdicts for the (text, pattern) pairs it met: env.rx = << [s, p, m] >>, m \in {"t", "f", "bad"}
+RxHit(env, s, p) ==
+  IF "rx" \notin DOMAIN env THEN 0
+  ELSE LET hits == {i \in 1..Len(env.rx) : env.rx[i].s = s /\ env.rx[i].p = p}
+       IN IF hits = {} THEN 0 ELSE CHOOSE i \in hits : TRUE
 
 \* date_trunc: the named part and everything below it is reset
 TruncParts == <<"year", "month", "day", "hour", "minute", "second", "milliseconds", "microseconds">>
@@ -613,6 +621,9 @@ Eval(e, env) ==
              bad == FirstBad(os)
          IN IF \E i \in 1..Len(os) : os[i].k # "val" THEN bad
             ELSE IF e.f = "array" THEN CreateArray([i \in 1..Len(os) |-> os[i].v])
+            ELSE IF e.f = "regex_matches" /\ Len(os) = 2 /\ os[1].v.t = "text" /\ os[2].v.t = "text" /\ RxHit(env, os[1].v.s, os[2].v.s) # 0
+                 THEN \* a recorded evaluation (Trace_Expr): what the regex crate itself says about this text and this pattern
+                      (LET m == env.rx[RxHit(env, os[1].v.s, os[2].v.s)].m IN IF m = "bad" THEN Err ELSE Val(BoolV(m = "t")))
             ELSE IF Len(os) = 1 THEN Call1(e.f, os[1].v)
             ELSE IF Len(os) = 2 THEN Call2(e.f, os[1].v, os[2].v)
             ELSE IF Len(os) = 7 /\ e.f = "make_timestamp" THEN MakeTs([i \in 1..7 |-> os[i].v])
